@@ -31,6 +31,28 @@ fn interesting_depth(rng: &mut Rng) -> usize {
 /// prefixes ending at 6-bit page boundaries ±1, dense sub-tries around the elision threshold.
 pub fn gen_pool(rng: &mut Rng, n: usize) -> Vec<Key> {
     let mut set: BTreeSet<Key> = BTreeSet::new();
+    if n >= 200 && rng.chance(1, 3) {
+        // one family sharing a long prefix and differing in a counter at the end (hundreds of
+        // leaves whose separators share the prefix: prefix compression, its cut-off inside a
+        // branch node, branch splits), plus a few keys far before and far after it
+        let base = rng.bytes32();
+        let plen = *rng.pick(&[8usize, 20, 26, 28]);
+        let stride = rng.range(1, 9);
+        let fam = n - n / 12 - 2;
+        for i in 0..fam {
+            let mut k = base;
+            for b in k.iter_mut().skip(plen) { *b = 0; }
+            let c = (i as u64 * stride + 3).to_be_bytes();
+            k[24..32].copy_from_slice(&c);
+            set.insert(k);
+        }
+        while set.len() < n {
+            let mut k = rng.bytes32();
+            k[0] = if rng.chance(1, 2) { 0xff } else { 0x00 };
+            if rng.chance(1, 2) { let k0 = k[0]; for b in k.iter_mut().take(20).skip(1) { *b = k0; } }
+            set.insert(k);
+        }
+    }
     while set.len() < n {
         match rng.below(10) {
             0..=2 => { set.insert(rng.bytes32()); }
@@ -81,6 +103,12 @@ pub fn gen_probes(rng: &mut Rng, pool: &[Key], n: usize) -> Vec<K> {
         if !in_pool.contains(&k) { out.insert(K(k)); }
     }
     out.into_iter().collect()
+}
+
+pub fn gen_len_fat(rng: &mut Rng, big: u64, fat: u64) -> u32 {
+    // `fat` in 100 values are large in-leaf values (about three cells per leaf: many leaves)
+    if rng.below(100) < fat { return rng.range(700, 1332) as u32; }
+    gen_len(rng, big)
 }
 
 pub fn gen_len(rng: &mut Rng, big: u64) -> u32 {
@@ -138,12 +166,13 @@ pub struct Profile {
     pub nonblocking_pct: u64,
     pub bad_rollback_pct: u64,
     pub w_compete: u64,
+    pub fat_pct: u64,
 }
 
 impl Default for Profile {
     fn default() -> Self {
         Profile { steps: (2, 8), pool: (6, 60), batch: (1, 24), big_pct: 12, w_commit: 70, w_reopen: 10, w_rollback: 8, w_overlay: 12, witness_pct: 30,
-            rollback: None, small_ht: false, small_segments: false, session_reads: 6, session_proves: 4, nonblocking_pct: 15, bad_rollback_pct: 15, w_compete: 0 }
+            rollback: None, small_ht: false, small_segments: false, session_reads: 6, session_proves: 4, nonblocking_pct: 15, bad_rollback_pct: 15, w_compete: 0, fat_pct: 0 }
     }
 }
 
@@ -174,7 +203,7 @@ impl<'a> HistGen<'a> {
             let r = rng.below(100);
             let act = if r < 12 { Act::Read } else {
                 let del = if present.contains(&k) { rng.chance(1, 4) } else { rng.chance(1, 10) };
-                let v = if del { None } else { self.stamp += 1; Some(VSpec { len: gen_len(rng, self.prof.big_pct), stamp: self.stamp }) };
+                let v = if del { None } else { self.stamp += 1; Some(VSpec { len: gen_len_fat(rng, self.prof.big_pct, self.prof.fat_pct), stamp: self.stamp }) };
                 effect.push((k, v.is_some()));
                 if r < 35 { Act::Rtw(v) } else { Act::Write(v) }
             };
